@@ -250,6 +250,13 @@ def run(ctx, pid):
         futs = [ex.submit(launch, u) for u in units]
         for u, f in zip(units, futs):
             label, kind, c = u
+            if any(v['signature'].startswith('hang:') for v in ctx.violations):
+                # the implementation hangs: the verdict is in; every further replay would only
+                # cost one time-out per path
+                if f.cancel():
+                    continue
+                f.result()
+                continue
             res = f.result()
             src = recipe.account(ctx, label, 'Pool', tla_consts(c), res,
                                  emit=(kind != 'wide'), simulate=(kind == 'walks'))
